@@ -29,6 +29,7 @@ def run(name):
         rc, txt = sh("git apply %s" % os.path.join(d, "patch.diff"), wt)
         if rc != 0:
             res["error"] = "patch does not apply: " + txt[-500:]
+            print(name, "ERROR", res["error"], flush=True)
             return res
         rc, txt = sh("go build ./... && go test -vet=off -count=1 . ./internal/fastcsv ./internal/io/sql 2>&1 | tail -5", wt)
         res["suite_tail"] = txt[-600:]
